@@ -395,6 +395,69 @@ theorem rules_listed :
        ("dijkstra", "conway.UtxoValidateValueNotConservedUtxo")] := by
   decide
 
+/-! ### (R) the certificate cases of the Go rule bodies, regenerated on every run -/
+
+/-- every certificate constructor of the model under the name of its Go type, built with
+    the probe amount 5 (recorded deposit 7) -/
+def namedCerts : List (String × Cert) :=
+  [("StakeRegistrationCertificate", .sreg), ("StakeDeregistrationCertificate", .sdereg),
+   ("StakeDelegationCertificate", .sdeleg), ("PoolRetirementCertificate", .pret),
+   ("VoteDelegationCertificate", .vdeleg), ("PoolRegistrationCertificate", .preg true 1),
+   ("RegistrationCertificate", .reg 5), ("DeregistrationCertificate", .unreg 5 7),
+   ("StakeRegistrationDelegationCertificate", .srd 5), ("VoteRegistrationDelegationCertificate", .vrd 5),
+   ("StakeVoteRegistrationDelegationCertificate", .svrd 5), ("RegistrationDrepCertificate", .dreg 5),
+   ("DeregistrationDrepCertificate", .dunreg 5 7)]
+
+/-- which quantity a probed value is: KeyDeposit is probed with 2, PoolDeposit with 3, the
+    certificate's own amount with 5 -/
+def srcName (v : Nat) : Option String :=
+  if v = 2 then some "KeyDeposit" else if v = 3 then some "PoolDeposit"
+  else if v = 5 then some "Amount" else none
+
+/-- the table the model's refund / deposit functions induce -/
+def modelCases (conway : Bool) : List (String × String × String) :=
+  (namedCerts.filterMap fun (n, c) =>
+    (srcName (if conway then refundConway 2 c else refundLegacy 2 c)).map fun s => ("consumed", n, s)) ++
+  (namedCerts.filterMap fun (n, c) =>
+    (srcName ((if conway then depositConway 2 c else depositLegacy 2 c) + 3 * countNew [] [c])).map
+      fun s => ("produced", n, s))
+
+/-- The certificate types each Go rule body adds to the consumed / produced side, and
+    where it takes the amount from (KeyDeposit, PoolDeposit, the certificate's Amount),
+    are exactly the model's — in all five rule bodies, as they stand in the source now. -/
+theorem cert_cases_match :
+    (∀ l ∈ [GV.Gen.G1Rules.vcCases_shelley, GV.Gen.G1Rules.vcCases_mary, GV.Gen.G1Rules.vcCases_alonzo,
+            GV.Gen.G1Rules.vcCases_babbage],
+      (∀ x ∈ l, x ∈ modelCases false) ∧ (∀ x ∈ modelCases false, x ∈ l)) ∧
+    (∀ x ∈ GV.Gen.G1Rules.vcCases_conway, x ∈ modelCases true) ∧
+    (∀ x ∈ modelCases true, x ∈ GV.Gen.G1Rules.vcCases_conway) := by
+  decide
+
+/-- certificate builders by Go type name: amount `a`, recorded deposit 7 -/
+def namedBuilders : List (String × (Nat → Cert)) :=
+  [("StakeRegistrationCertificate", fun _ => .sreg), ("StakeDeregistrationCertificate", fun _ => .sdereg),
+   ("PoolRegistrationCertificate", fun _ => .preg true 1),
+   ("RegistrationCertificate", .reg), ("DeregistrationCertificate", fun a => .unreg a 7),
+   ("StakeRegistrationDelegationCertificate", .srd), ("VoteRegistrationDelegationCertificate", .vrd),
+   ("StakeVoteRegistrationDelegationCertificate", .svrd), ("RegistrationDrepCertificate", .dreg),
+   ("DeregistrationDrepCertificate", fun a => .dunreg a 7)]
+
+/-- what the model's `depositOff` compares a certificate's amount with, found by probing
+    (KeyDeposit 2, DRepDeposit 3, recorded deposit 7) -/
+def modelDepositCases : List (String × String) :=
+  namedBuilders.filterMap fun (n, mk) =>
+    if !depositOff 2 3 (mk 2) && depositOff 2 3 (mk 3) && depositOff 2 3 (mk 7) then some (n, "KeyDeposit")
+    else if !depositOff 2 3 (mk 3) && depositOff 2 3 (mk 2) && depositOff 2 3 (mk 7) then some (n, "DRepDeposit")
+    else if !depositOff 2 3 (mk 7) && depositOff 2 3 (mk 2) && depositOff 2 3 (mk 3) then some (n, "Recorded")
+    else none
+
+/-- (R) the certificate deposit rule in the source compares exactly the certificate types
+    the model says, each with the quantity the model says. -/
+theorem deposit_rule_cases_match :
+    (∀ x ∈ GV.Gen.G1Rules.depositRuleCases, x ∈ modelDepositCases) ∧
+    (∀ x ∈ modelDepositCases, x ∈ GV.Gen.G1Rules.depositRuleCases) := by
+  decide
+
 /-- Non-vacuity: accepted transactions with certificates, several assets, proposals,
     a duplicate pool registration and phase-2 fields exist. -/
 example : accepted exShelley = true ∧ specConserved exShelley = true := by decide
